@@ -1,6 +1,9 @@
 package fsm
 
 import (
+	"bytes"
+	"fmt"
+
 	"github.com/canopy-network/canopy/lib"
 	"github.com/canopy-network/canopy/lib/crypto"
 	"google.golang.org/protobuf/types/known/anypb"
@@ -122,6 +125,17 @@ func (s *StateMachine) CheckTx(transaction []byte, txHash string, batchVerifier 
 	// perform basic validations against the tx object
 	if err = tx.CheckBasic(); err != nil {
 		return
+	}
+	// only accept the canonical encoding of the transaction: the identity of a transaction (replay protection,
+	// indexing) is the hash of its raw bytes while the signature covers the re-marshalled content, so any other
+	// encoding of the same signed content (explicit default fields, re-ordered or split fields, padded varints)
+	// would be a 'new' transaction that executes again
+	canonical, err := lib.Marshal(tx)
+	if err != nil {
+		return
+	}
+	if !bytes.Equal(canonical, transaction) {
+		return nil, lib.ErrUnmarshal(fmt.Errorf("transaction bytes are not the canonical encoding"))
 	}
 	if s.Metrics != nil {
 		s.Metrics.CheckTxDecodeTime.Observe(time.Since(decodeStartTime).Seconds())
